@@ -130,6 +130,19 @@ theorem C01_join_fails_closed {α β : Type} (blocks : List Block) (isWith : Nat
   have hmem : b ∈ blocks.filter (fun b => isWith b.handler) := by simp [hb, hw]
   rw [c01_mapAll_none _ b hbad _ hmem]
 
+/-- After the join, `contexts_active_in_frame` fills the exiting context's `obj` from the first argument of the frame
+the program is currently calling (`next_inner`), if there is one — whatever that argument is. -/
+def fillExiting {β : Type} (cs : List (Nat × Option β)) (lastIsExiting : Bool) (nextFirstArg : Option β) : List (Nat × Option β) :=
+  match cs.reverse, lastIsExiting, nextFirstArg with
+  | (off, _) :: rest, true, some v => (rest.reverse ++ [(off, some v)])
+  | _, _, _ => cs
+
+/-- Finding F12 in the model: the exiting context gets the next frame's first argument for *any* value of it —
+nothing ties it to the manager whose exit is in progress. -/
+theorem C01_F12_witness {β : Type} (cs : List (Nat × Option β)) (off : Nat) (v : β) :
+    (fillExiting (cs ++ [(off, none)]) true (some v)).getLast? = some (off, some v) := by
+  simp [fillExiting]
+
 /-! Non-vacuity: the table CPython 3.12 emits for `with a as x: with b: pass` is disjoint and forward, decodes
 to its six entries, and the walk from inside the inner body finds both with-handlers, outermost first. -/
 def C01.exTable : List Nat := [131, 3, 37, 3, 134, 1, 25, 5, 136, 8, 37, 3, 153, 5, 34, 9, 158, 7, 37, 3, 165, 5, 46, 7]
